@@ -583,6 +583,10 @@ def obligations(tier, seed):
         if name == 'meta2x2-bulk/two-tiles-of-one-meta-tile' and tier != 'thorough':
             args['bmc_only'] = True      # the Houdini run of this scenario takes ~200 s
         specs.append(dict(name='concurrent/' + name, module=MOD, func='run_scenario', kind='holds', args=args, cost=10 * len(scn['requests']) ** 2))
+    # stale (not absent) tiles: the model above has one bit per address; that the re-check under the lock sees what the lock
+    # holder just wrote -- and not the timestamp the waiter read before it waited -- is the C13 re-check obligation
+    from engine.e1 import spec as e1_spec
+    specs.append(e1_spec('props.C13_expiry', 'Recheck', 'stale-tile/recheck-under-the-lock-uses-the-current-timestamp', cfg={}, cost=3))
     specs.append(dict(name='twin/fetch-reachable', module=MOD, func='run_witness', kind='witness', args=dict(scenario=SCENARIOS['meta2x2/same-tile-x2']), cost=2))
     for label, scn, patches in (CANARIES if tier == 'thorough' else CANARIES[:3]):
         args = dict(scenario=SCENARIOS[scn], patches={m: [list(x) for x in lst] for m, lst in patches.items()})
